@@ -474,16 +474,15 @@ def operand_class(family, helper, args, exp):
         return f"{family[7:]}:{'dups' if len(set(args[0])) < len(args[0]) else 'nodups'}"
     if f == "normalize":
         s = args[0]
-        flags = [n for n, t in (("upper", s != s.lower()), ("outer-blank", s != s.strip()), ("non-ascii", not s.isascii())) if t]
-        return "+".join(flags) or "plain"
+        return "non-ascii" if not s.isascii() else "upper" if s != s.lower() else "outer-blank" if s != s.strip() else "plain"
     if f == "glob":
         pat = args[1]
-        flags = [n for n, t in (("star", "*" in pat), ("one", "?" in pat), ("negset", "[!" in pat), ("set", "[" in pat and "[!" not in pat)) if t]
-        return ("+".join(flags) or "literal") + ":" + e
+        return ("negset" if "[!" in pat else "set" if "[" in pat else "star" if "*" in pat else "one" if "?" in pat else "literal") + ":" + e
     if f == "cidr":
         n, x = cidr.classify(args[0]), cidr.classify(args[1])
-        pc = lambda c: "-" if c[0] != "net" else ("/0" if c[2] == 0 else "/32" if c[2] == 32 else "/mid")  # noqa: E731
-        return f"n={n[0]}{pc(n)}:x={x[0]}{pc(x)}:{e}"
+        if n[0] == "net" and x[0] == "net":
+            return f"x=net-{'longer' if x[2] > n[2] else 'shorter' if x[2] < n[2] else 'same'}-prefix:{e}"
+        return f"n={n[0]}:x={x[0]}:{e}"
     if f == "size":
         n = cidr.classify(args[0])
         return n[0] + ("" if n[0] != "net" else ("/0" if n[2] == 0 else "/32" if n[2] == 32 else "/mid"))
@@ -491,9 +490,16 @@ def operand_class(family, helper, args, exp):
         la, lb = args[0].count("."), args[1].count(".")
         return ("same-length" if la == lb else "different-length") + ":" + e
     if f == "tags":
-        v = c7nref.tag_key([tuple(t) for t in args[0]], args[1])
         n = sum(1 for t in args[0] if t[0] == args[1])
-        return f"first-match={TAG_VALUE_KIND.get(v, 'other')}:{'dup-key' if n > 1 else 'single' if n else 'no-key'}"
+        dup = "dup-key" if n > 1 else "single" if n else "no-key"
+        if helper == "key":
+            return dup
+        # marked_key = decompose(key(...)): when the lookup itself is wrong for these arguments, say so (one root cause)
+        k_exp, k_obs = expect(family, "key", args), observe(family, "key", D, None, args)
+        if not (k_obs[0] == "V" and k_obs[1:3] == k_exp):
+            return "key-lookup-wrong:" + dup
+        v = c7nref.tag_key([tuple(t) for t in args[0]], args[1])
+        return f"first-match={TAG_VALUE_KIND.get(v, 'other')}"
     if f == "arn":
         return f"fields={args[0].count(':')}:{args[1]}"
     return "-"
